@@ -744,3 +744,17 @@ package rtpconn
 //@   assert at call sendNACK reported: first(callresult("BitmapGet", 1)) && sendNACK && arg_first == second(callresult("BitmapGet", 1)) && arg_bitmap == third(callresult("BitmapGet", 1))
 //@   -- the writers are told the slot the packet was stored in
 //@   assert at call write stored-slot: arg_seqno == packet.SequenceNumber && arg_index == second(callresult("Store", 1))
+//@
+//@ -- ------------------------------------------------------------------ replaceTracks' part of the layer word (C04)
+//@ func replaceTracks$1
+//@   ematch
+//@   props C04 C12
+//@   -- type invariant of a down connection (assumed): its tracks are real and have their atomics
+//@   assume tracks: conn != nil && (forall k int :: 0 <= k && k < len(conn.tracks) ==> conn.tracks[k] != nil && conn.tracks[k].atomics != nil)
+//@   modifies *
+//@   invariant loop 1 range: -1 <= rangeindex && rangeindex < len(old(conn.tracks))
+//@   invariant loop 1 tracks: conn != nil && (forall k int :: 0 <= k && k < len(old(conn.tracks)) ==> old(conn.tracks)[k] != nil && old(conn.tracks)[k].atomics != nil)
+//@   -- C04: every word stored here satisfies the invariant (checked as setLayerInfo's precondition), limitSid is installed as requested
+//@   -- and forces the wanted spatial layer to 0
+//@   assert at call setLayerInfo limit: arg_info.limitSid == limitSid && (limitSid ==> arg_info.wantedSid == 0)
+//@        && arg_info.sid == callresult("getLayerInfo", 1).sid && arg_info.tid == callresult("getLayerInfo", 1).tid
